@@ -98,13 +98,15 @@ def facts_dir(config="default", cargo_args=None, rustflags=None, repo=None, extr
         ok = os.path.isdir(d) and all(os.path.getsize(os.path.join(d, f)) > 2 for f in expected_for(config) if os.path.exists(os.path.join(d, f))) \
             and all(os.path.exists(os.path.join(d, f)) for f in expected_for(config))
         if ok and not os.environ.get("VERIF_NO_CACHE"):
+            os.utime(d)  # in use: keeps a concurrent check from evicting it
             return d
         if os.path.isdir(d):
             shutil.rmtree(d)
         # drop old cache entries (keep disk usage bounded)
         entries = sorted((os.path.getmtime(os.path.join(CACHE, e)), e) for e in os.listdir(CACHE) if os.path.isdir(os.path.join(CACHE, e)))
-        for _, e in entries[:-14]:
-            shutil.rmtree(os.path.join(CACHE, e), ignore_errors=True)
+        for mt, e in entries[:-14]:
+            if time.time() - mt > 1800:  # never an entry another running check may still be reading
+                shutil.rmtree(os.path.join(CACHE, e), ignore_errors=True)
         tmp = d + ".tmp"
         shutil.rmtree(tmp, ignore_errors=True)
         env = dict(os.environ)
